@@ -34,6 +34,14 @@ def classify(env, src, dst):
     return "plain"
 
 
+def _dimensionless_factors(env, unit):
+    out = []
+    for f, e in unit.factors.items():
+        if f is not env.m.One and not any(env.mdl.declared_dimension(f).exponents):
+            out.append((f, e))
+    return out
+
+
 class ConvertMonitor:
     def __init__(self, env, ctx, rel_per_degree=SHIPPED_REL, orc=None, key_prefix="C04"):
         self.env = env
@@ -43,6 +51,38 @@ class ConvertMonitor:
         self.key_prefix = key_prefix
         self.last = None  # outcome of the most recent checked conversion
         env.kit.post(env.conv, "convert", self._post, label="conversions.convert")
+
+    def explained_by_dimensionless_factors(self, src, dst, mf, got, rel):
+        """the known mechanism files Number-dimension factors under one bucket whatever the sign of their exponent and
+        drops the unmatched ones: the returned value then equals the conversion of the physical part times some
+        product of powers (bounded by the exponents present) of the sizes of the dimensionless units involved"""
+        import itertools
+
+        env, orc = self.env, self.orc
+        dd = env.mdl.declared_dimension
+        r0 = orc.ratio(orc.without_dimensionless(src, dd), orc.without_dimensionless(dst, dd))
+        if r0 is None or mf == 0:
+            return True   # nothing to compare against: keep the conservative classification
+        dims = {}
+        for f, e in _dimensionless_factors(env, src) + _dimensionless_factors(env, dst):
+            dims[f] = dims.get(f, 0) + abs(e)
+        if len(dims) > 4:
+            return True
+        try:
+            sizes = {f: orc.size[f].value for f in dims}
+        except Exception:
+            return True
+        g = oracle.F(got)
+        base_lo, base_hi = sorted((mf * r0[0], mf * r0[1]))
+        tol = Fraction(rel) + Fraction(1, 10**9)
+        for ks in itertools.product(*[range(-n, n + 1) for n in dims.values()]):
+            factor = Fraction(1)
+            for (f, _), k in zip(dims.items(), ks):
+                factor *= sizes[f] ** k
+            lo, hi = sorted((base_lo * factor, base_hi * factor))
+            if oracle.within(g, lo, hi, tol, abs_=Fraction(0)):
+                return True
+        return False
 
     def _post(self, a, k, result, exc):
         ctx = self.ctx
@@ -119,6 +159,10 @@ class ConvertMonitor:
         self.last = ok
         if not ok:
             cls = classify(self.env, src, other_unit)
+            if cls == "DIMLESS" and not self.explained_by_dimensionless_factors(src, other_unit, mf, got, rel):
+                # units of dimension Number are present, but the returned value is not what dropping or inverting
+                # them gives: this is not the known mechanism, it is some other wrong answer
+                cls = "with-dimensionless-factors-but-not-explained-by-them"
             try:
                 plan = self.env.conv._plan_conversion(src, other_unit)
                 plan_s = repr(plan)[:600]
